@@ -1,8 +1,127 @@
-/- Driver handlers for area `resolve` (stub: replace `handle`). -/
+/- Driver handlers for area `resolve` (C16: server-name resolution). -/
 import VDriver.Util
+import VModel.Resolve
 namespace V.Driver.ResolveOps
-open V V.Driver
+open V V.Driver V.Resolve
 
-def handle (_op : String) (_args : Array String) : Option String := none
+def unhexStr (s : String) : Option Cidr.Str := (unhex s).map (fun b => (bytesStr b).toList)
+def hexStr (s : Cidr.Str) : String := hex (strBytes (String.ofList s))
+
+/-- `hx(target)~port;...` -/
+def parseRecords (s : String) : Option (List (Cidr.Str × Nat)) :=
+  (s.splitOn ";").mapM (fun r => match r.splitOn "~" with
+    | [t, p] => match unhexStr t, p.toNat? with
+      | some t, some p => some (t, p)
+      | _, _ => none
+    | _ => none)
+
+/-- answer codes: nf / nd (NXDOMAIN / no data) = not found; err / lame = DNS error; r:<records> -/
+def parseAnswer (s : String) : Option SrvAnswer :=
+  if s == "nf" || s == "nd" then some .notFound
+  else if s == "err" || s == "lame" then some .dnsError
+  else if s.startsWith "r:" then (parseRecords (s.drop 2).toString).map .records
+  else none
+
+/-- `<svc>|<hx name>|<answer>,...` or `.` -/
+def parseScript (s : String) : Option (List (Cidr.Str × Cidr.Str × SrvAnswer)) :=
+  if s == "." then some [] else
+  (s.splitOn ",").mapM (fun e => match e.splitOn "|" with
+    | [svc, n, a] => match unhexStr n, parseAnswer a with
+      | some n, some a => some (svc.toList, n, a)
+      | _, _ => none
+    | _ => none)
+
+def lowerStr (s : Cidr.Str) : Cidr.Str := s.map Char.toLower
+
+/-- the SRV oracle of a script: names are compared case-insensitively (DNS); unscripted = not found -/
+def srvOf (script : List (Cidr.Str × Cidr.Str × SrvAnswer)) (svc n : Cidr.Str) : SrvAnswer :=
+  match script.find? (fun e => e.1 == svc && lowerStr e.2.1 == lowerStr n) with
+  | some e => e.2.2
+  | none => .notFound
+
+/-- well-known outcome codes: `S<hx m.server>` = honoured, `N...` = any refusal / error -/
+def parseWK (s : String) : Option (Option Cidr.Str) :=
+  -- LookupWellKnown never returns an empty m.server (it is an error)
+  if s.startsWith "S" then (unhexStr (s.drop 1).toString).map (fun d => if d.isEmpty then none else some d)
+  else if s.startsWith "N" then some none
+  else none
+
+def showTargets (ts : List Target) : String :=
+  ";".intercalate (ts.map (fun t => hexStr t.dest ++ "," ++ hexStr t.host ++ "," ++ hexStr t.sni))
+
+def showResult (r : Except Err (List Target)) (wkQueries : List Cidr.Str) : String :=
+  match r with
+  | .ok ts => "ok:" ++ showTargets ts ++ "|wk=" ++ ",".intercalate (wkQueries.map hexStr)
+  | .error e => showErr e ++ "|wk=" ++ ",".intercalate (wkQueries.map hexStr)
+
+/-- Is the name inside the property's quantifier?  The appendix grammar has `port = 1*5DIGIT` and
+    `dns-name = 1*255dns-char`; spellings outside it that the code accepts (ports padded with leading
+    zeros to more than five digits, over-long names) are left unspecified (decision of the lead). -/
+def unspecifiedName (name : Cidr.Str) : Bool :=
+  match splitLastColon name with
+  | some (h, p) => (Spec.isPort p && p.length > 5) || h.length > 255
+  | none => name.length > 255
+
+/-- ops:
+    resolve <hx name> <wk of name> <wk of delegated (never consulted)> <srv script>
+       -> ok:<dest,host,sni;...>|wk=<names asked for /.well-known> | err:invalid-server-name|wk=... | panic:...
+-/
+def handle (op : String) (args : Array String) : Option String :=
+  match op, args.toList with
+  | "resolve", [n, wk1, _wk2, script] =>
+    match unhexStr n, parseWK wk1, parseScript script with
+    | some name, some wk, some sc =>
+      let o : Oracles := { wk := fun q => if q == name then wk else none, srv := srvOf sc }
+      -- the well-known lookups the model performs: one for `name` iff steps 1 and 2 do not apply
+      let wkq := match resolveDirect name with
+        | .ok none => [name]
+        | _ => []
+      let m := showResult (resolve o name) wkq
+      let delegatedUnspec := match wk with
+        | some d => unspecifiedName d
+        | none => false
+      let s := if unspecifiedName name || (wkq != [] && delegatedUnspec) then "unspecified:name-spelling-outside-grammar"
+               else showResult (Spec.resolve o name) (match Spec.classify name with
+                 | some k => if (Spec.direct name k).isNone then [name] else []
+                 | none => [])
+      some (m ++ "\t" ++ s)
+    | _, _, _ => some "bad-op"
+  | "roundtrip", [n, wk1, script] =>
+    match unhexStr n, parseWK wk1, parseScript script with
+    | some name, some wk, some sc =>
+      let o : Oracles := { wk := fun q => if q == name then wk else none, srv := srvOf sc }
+      -- the network of the harness: port 1 = the answering server, port 2 = the server that fails the TLS
+      -- handshake, anything else = nothing listens
+      let reach (t : Target) : Reach :=
+        match splitLastColon t.dest with
+        | some (_, p) => if p == "1".toList then .ok else if p == "2".toList then .tlsFail else .refused
+        | none => .refused
+      -- crypto/tls sends no SNI for IP literals and strips trailing dots
+      let sniSent (s : Cidr.Str) : Cidr.Str := if (Cidr.parseIP s).isSome then [] else s
+      let showTrip (r : Except Err Trip) : String :=
+        match r with
+        | .error e => showErr e
+        | .ok tr =>
+          let seen := tr.attempts.filterMap (fun a => match a.2 with
+            | .ok => some ("A," ++ hexStr (sniSent a.1.sni) ++ "," ++ hexStr a.1.host)
+            | .tlsFail => some ("B," ++ hexStr (sniSent a.1.sni))
+            | .refused => none)
+          ";".intercalate seen ++ (if tr.ok then "|ok" else "|err") ++
+            "|wk=" ++ (if tr.resolved && (match resolveDirect name with | .ok none => true | _ => false) then "1" else "0")
+      let t1 := roundTrip o name reach none
+      let cache := match t1 with
+        | .ok tr => tr.cache
+        | .error _ => none
+      let t2 := roundTrip o name reach cache
+      some ("rt:" ++ showTrip t1 ++ "#" ++ showTrip t2)
+    | _, _, _ => some "bad-op"
+  | "validate", [n] =>
+    match unhexStr n with
+    | some name =>
+      some (match parseAndValidate name with
+        | none => "invalid"
+        | some (h, p) => "ok:" ++ hexStr h ++ ":" ++ (match p with | none => "-1" | some p => toString p))
+    | none => some "bad-op"
+  | _, _ => none
 
 end V.Driver.ResolveOps
